@@ -976,6 +976,10 @@ func main() {
 			Batches int    `json:"batches"`
 		}
 		c.LoadReplay(&rp)
+		if rp.Stage == "reopen" {
+			reopenStage(c, 60)
+			c.Finish("replay of the close-and-reopen stage")
+		}
 		if rp.Stage == "atomic-visibility" {
 			d := map[string]db.KeyValueStore{"memory": bk.mem, "pebblev2": bk.p2, "pebble": bk.p1}[rp.Backend]
 			fmt.Printf("replay: %d batches on %s with three concurrent readers (scheduler-dependent: repeated 5 times)\n", rp.Batches, rp.Backend)
@@ -1029,6 +1033,13 @@ func main() {
 	atomicVisibility(c, "memory", bk.mem, nb)
 	atomicVisibility(c, "pebblev2", bk.p2, nb/3)
 	atomicVisibility(c, "pebble", bk.p1, nb/3)
+
+	// 1c. what was written survives Close + reopen of the Pebble backends (see reopen.go)
+	nre := 60
+	if c.Thorough() {
+		nre = 600
+	}
+	reopenStage(c, nre)
 
 	// 2. operation sequences
 	ncases := 1500
